@@ -188,4 +188,130 @@ theorem walkAttrs_erase_sub (sig : String → List String) : ∀ (attrs : List (
     · exact Or.inr (walkAttrs_erase_sub sig rest x h)
 end
 
+/-! ### assertions keep their verdicts -/
+
+theorem operandVal_reload [Inhabited V] (ops : Ops V) (sig : String → List String)
+    (dflt : String → List (String × Scal V)) (σ : Nat → Nat) (ρ ρ' : Nat → Inst V)
+    (h : ∀ i, ρ' (σ i) = ρ i) (n : PN V) :
+    operandVal ops ρ' (erase sig (renamePN σ (canonPN dflt n))) = operandVal ops ρ (erase sig n) := by
+  unfold operandVal
+  rw [erase_rename, erase_canon, instW_rename]
+  have : (fun i => ρ' (σ i)) = ρ := funext h
+  rw [this, instW_canonNames]
+
+theorem evalA_asrtOf_reload [Inhabited V] (ops : Ops V) (sig : String → List String)
+    (dflt : String → List (String × Scal V)) (σ : Nat → Nat) (ρ ρ' : Nat → Inst V)
+    (h : ∀ i, ρ' (σ i) = ρ i) : ∀ (a : PN V),
+    evalA ops ρ' (asrtOf sig (renamePN σ (canonPN dflt a))) = evalA ops ρ (asrtOf sig a)
+  | .arith ct _ _ l r => by
+      have hl := operandVal_reload ops sig dflt σ ρ ρ' h l
+      have hr := operandVal_reload ops sig dflt σ ρ ρ' h r
+      simp only [canonPN, renamePN, asrtOf]
+      split
+      · simp only [evalA, hl, hr]
+      · split
+        · simp only [evalA, hl, hr]
+        · rfl
+  | .both x y => by
+      simp only [canonPN, renamePN, asrtOf, evalA]
+      rw [evalA_asrtOf_reload ops sig dflt σ ρ ρ' h x, evalA_asrtOf_reload ops sig dflt σ ρ ρ' h y]
+  | .prior _ _ => by simp [canonPN, renamePN, asrtOf, evalA]
+  | .lit _ => by simp [canonPN, renamePN, asrtOf, evalA]
+  | .model _ _ _ => by simp [canonPN, renamePN, asrtOf, evalA]
+  | .inst _ _ => by simp [canonPN, renamePN, asrtOf, evalA]
+  | .coll _ _ _ => by simp [canonPN, renamePN, asrtOf, evalA]
+  | .tuple _ => by simp [canonPN, renamePN, asrtOf, evalA]
+  | .modif _ _ _ => by simp [canonPN, renamePN, asrtOf, evalA]
+  | .array _ _ => by simp [canonPN, renamePN, asrtOf, evalA]
+  | .list _ _ => by simp [canonPN, renamePN, asrtOf, evalA]
+
+theorem renamePNList_append (σ : Nat → Nat) : ∀ (a b : List (PN V)),
+    renamePNList σ (a ++ b) = renamePNList σ a ++ renamePNList σ b
+  | [], b => by simp [renamePNList]
+  | n :: a, b => by simp [renamePNList, renamePNList_append σ a b]
+
+theorem canonPNList_append (dflt : String → List (String × Scal V)) : ∀ (a b : List (PN V)),
+    canonPNList dflt (a ++ b) = canonPNList dflt a ++ canonPNList dflt b
+  | [], b => by simp [canonPNList]
+  | n :: a, b => by simp [canonPNList, canonPNList_append dflt a b]
+
+mutual
+theorem pnAsserts_rename (σ : Nat → Nat) : ∀ (n : PN V),
+    pnAsserts (renamePN σ n) = renamePNList σ (pnAsserts n)
+  | .model _ attrs asserts => by
+      simp [renamePN, pnAsserts, renamePNList_append, pnAssertsAttrs_rename σ attrs]
+  | .coll _ attrs asserts => by
+      simp [renamePN, pnAsserts, renamePNList_append, pnAssertsAttrs_rename σ attrs]
+  | .prior _ _ => by simp [renamePN, pnAsserts, renamePNList]
+  | .lit _ => by simp [renamePN, pnAsserts, renamePNList]
+  | .inst _ _ => by simp [renamePN, pnAsserts, renamePNList]
+  | .tuple _ => by simp [renamePN, pnAsserts, renamePNList]
+  | .arith _ _ _ _ _ => by simp [renamePN, pnAsserts, renamePNList]
+  | .both _ _ => by simp [renamePN, pnAsserts, renamePNList]
+  | .modif _ _ _ => by simp [renamePN, pnAsserts, renamePNList]
+  | .array _ _ => by simp [renamePN, pnAsserts, renamePNList]
+  | .list _ _ => by simp [renamePN, pnAsserts, renamePNList]
+theorem pnAssertsAttrs_rename (σ : Nat → Nat) : ∀ (attrs : List (String × PN V)),
+    pnAssertsAttrs (renamePNAttrs σ attrs) = renamePNList σ (pnAssertsAttrs attrs)
+  | [] => by simp [renamePNAttrs, pnAssertsAttrs, renamePNList]
+  | (k, n) :: rest => by
+    simp [renamePNAttrs, pnAssertsAttrs, renamePNList_append, pnAsserts_rename σ n, pnAssertsAttrs_rename σ rest]
+end
+
+mutual
+theorem pnAsserts_canon (dflt : String → List (String × Scal V)) : ∀ (n : PN V),
+    pnAsserts (canonPN dflt n) = canonPNList dflt (pnAsserts n)
+  | .model _ attrs asserts => by
+      simp [canonPN, pnAsserts, canonPNList_append, pnAssertsAttrs_canon dflt attrs]
+  | .coll _ attrs asserts => by
+      simp [canonPN, pnAsserts, canonPNList_append, pnAssertsAttrs_canon dflt attrs]
+  | .prior _ _ => by simp [canonPN, pnAsserts, canonPNList]
+  | .lit _ => by simp [canonPN, pnAsserts, canonPNList]
+  | .inst _ _ => by simp [canonPN, pnAsserts, canonPNList]
+  | .tuple _ => by simp [canonPN, pnAsserts, canonPNList]
+  | .arith _ _ _ _ _ => by simp [canonPN, pnAsserts, canonPNList]
+  | .both _ _ => by simp [canonPN, pnAsserts, canonPNList]
+  | .modif _ _ _ => by simp [canonPN, pnAsserts, canonPNList]
+  | .array _ _ => by simp [canonPN, pnAsserts, canonPNList]
+  | .list _ _ => by simp [canonPN, pnAsserts, canonPNList]
+theorem pnAssertsAttrs_canon (dflt : String → List (String × Scal V)) : ∀ (attrs : List (String × PN V)),
+    pnAssertsAttrs (canonPNAttrs dflt attrs) = canonPNList dflt (pnAssertsAttrs attrs)
+  | [] => by simp [canonPNAttrs, pnAssertsAttrs, canonPNList]
+  | (k, n) :: rest => by
+    simp [canonPNAttrs, pnAssertsAttrs, canonPNList_append, pnAsserts_canon dflt n, pnAssertsAttrs_canon dflt rest]
+end
+
+theorem verdicts_reload_list [Inhabited V] (ops : Ops V) (sig : String → List String)
+    (dflt : String → List (String × Scal V)) (σ : Nat → Nat) (ρ ρ' : Nat → Inst V)
+    (h : ∀ i, ρ' (σ i) = ρ i) : ∀ (l : List (PN V)),
+    (renamePNList σ (canonPNList dflt l)).map (fun a => evalA ops ρ' (asrtOf sig a)) =
+      l.map (fun a => evalA ops ρ (asrtOf sig a))
+  | [] => by simp [canonPNList, renamePNList]
+  | a :: rest => by
+    simp only [canonPNList, renamePNList, List.map_cons]
+    rw [evalA_asrtOf_reload ops sig dflt σ ρ ρ' h a, verdicts_reload_list ops sig dflt σ ρ ρ' h rest]
+
+/-! ### the identity renaming (pickle) -/
+
+mutual
+theorem renamePN_id : ∀ (n : PN V), renamePN (fun i => i) n = n
+  | .prior _ _ => by simp [renamePN]
+  | .lit _ => by simp [renamePN]
+  | .model _ attrs asserts => by simp [renamePN, renamePNAttrs_id attrs, renamePNList_id asserts]
+  | .inst _ attrs => by simp [renamePN, renamePNAttrs_id attrs]
+  | .coll _ attrs asserts => by simp [renamePN, renamePNAttrs_id attrs, renamePNList_id asserts]
+  | .tuple attrs => by simp [renamePN, renamePNAttrs_id attrs]
+  | .arith _ _ _ l r => by simp [renamePN, renamePN_id l, renamePN_id r]
+  | .both x y => by simp [renamePN, renamePN_id x, renamePN_id y]
+  | .modif _ _ x => by simp [renamePN, renamePN_id x]
+  | .array _ attrs => by simp [renamePN, renamePNAttrs_id attrs]
+  | .list _ items => by simp [renamePN, renamePNList_id items]
+theorem renamePNAttrs_id : ∀ (attrs : List (String × PN V)), renamePNAttrs (fun i => i) attrs = attrs
+  | [] => by simp [renamePNAttrs]
+  | (k, n) :: rest => by simp [renamePNAttrs, renamePN_id n, renamePNAttrs_id rest]
+theorem renamePNList_id : ∀ (l : List (PN V)), renamePNList (fun i => i) l = l
+  | [] => by simp [renamePNList]
+  | n :: rest => by simp [renamePNList, renamePN_id n, renamePNList_id rest]
+end
+
 end AF
